@@ -38,6 +38,10 @@ static const scen SC[] = {
 	{ "the same block object called directly by two threads at once", 'S', 0, { "d", "d", 0 } },
 	{ "a direct call racing an async submission of the same block object", 'S', 0, { "a", "d", 0 } },
 	{ "the same block object submitted with dispatch_async by two threads (concurrent queue)", 'C', 0, { "a", "a", 0 } },
+	// a block cancelled before it is submitted synchronously still completes for its waiters and observers
+	{ "BARRIER block cancelled, then dispatch_sync on a concurrent queue; a waiter on another thread", 'C', DISPATCH_BLOCK_BARRIER, { "cs", "W", 0 } },
+	{ "BARRIER block cancelled, then dispatch_sync, then notify and wait from the same thread", 'S', DISPATCH_BLOCK_BARRIER, { "csnW", 0, 0 } },
+	{ "block cancelled, then dispatch_sync on a serial queue; notify from another thread", 'S', 0, { "cs", "n", 0 } },
 };
 #define NSC ((int)(sizeof(SC) / sizeof(SC[0])))
 #define BODY 100
